@@ -486,6 +486,106 @@ var TemplatesA = []Template{
 		b[6] = (X>>4)%7 + X/1000
 		b[7] = (1 | 2<<8 | 3<<16 | (260&0xFF)<<24) + (X >> 8 & 0xFF)
 	}},
+	// ---- round 4: aggregate and vector shapes (single templates only; see pairHeavy) ----
+	{"x-vec-compare-any-all-select", "i32", "", "let v = vec3<i32>(buf[0], buf[1], buf[2]); let w = vec3<i32>(buf[3], buf[4], buf[5]); let lt = v < w; buf[6] = select(0, 1, any(lt)); buf[7] = select(0, 1, all(v <= w)); let s = select(v, w, lt); buf[0] = s.x + s.y * 3 + s.z * 5;", func(b []uint32) {
+		v := [3]int32{I(b[0]), I(b[1]), I(b[2])}
+		w := [3]int32{I(b[3]), I(b[4]), I(b[5])}
+		anyLt, allLe := false, true
+		var s [3]int32
+		for i := 0; i < 3; i++ {
+			if v[i] < w[i] {
+				anyLt = true
+				s[i] = w[i]
+			} else {
+				s[i] = v[i]
+			}
+			if !(v[i] <= w[i]) {
+				allLe = false
+			}
+		}
+		b[6] = Bool(anyLt)
+		b[7] = Bool(allLe)
+		b[0] = uint32(s[0] + s[1]*3 + s[2]*5)
+	}},
+	{"x-array-of-arrays-local", "i32", "", "var a: array<array<i32, 2>, 3>; a[u32(buf[0]) % 3u][u32(buf[1]) & 1u] = buf[2]; a[1][0] += 7; var r = a[u32(buf[3]) % 3u]; r[1] -= 1; buf[4] = r[0]; buf[5] = r[1]; buf[6] = a[2][1]; buf[7] = a[1][0];", func(b []uint32) {
+		var a [3][2]uint32
+		a[b[0]%3][b[1]&1] = b[2]
+		a[1][0] += 7
+		r := a[b[3]%3]
+		r[1]--
+		b[4], b[5], b[6], b[7] = r[0], r[1], a[2][1], a[1][0]
+	}},
+	{"x-nested-struct-copy", "i32", "struct In { a: i32, b: vec2<i32> }\nstruct Out { x: i32, inner: In, arr: array<In, 2> }", "var o: Out; o.inner = In(buf[0], vec2<i32>(buf[1], buf[2])); o.arr[u32(buf[3]) & 1u] = o.inner; o.arr[1].b.y += 5; let c = o; o.inner.a = 99; o.arr[0].a -= 1; buf[4] = c.inner.a; buf[5] = c.arr[1].b.y; buf[6] = c.arr[0].a; buf[7] = o.inner.a + o.arr[0].a;", func(b []uint32) {
+		type in struct{ a, bx, by uint32 }
+		var inner in
+		var arr [2]in
+		inner = in{b[0], b[1], b[2]}
+		arr[b[3]&1] = inner
+		arr[1].by += 5
+		cInner, cArr := inner, arr
+		inner.a = 99
+		arr[0].a--
+		b[4], b[5], b[6], b[7] = cInner.a, cArr[1].by, cArr[0].a, inner.a+arr[0].a
+	}},
+	{"x-switch-default-shares-clause", "i32", "", "var r = 0; switch buf[0] { case 1, 2: { r = 10; } case 3, default: { r = 20; if buf[1] > 0 { break; } r = 30; } case 4: { r = 40; } } buf[2] = r; var q = 1; switch buf[3] { default: { q = 2; } case 7: { q = 3; } } buf[4] = q;", func(b []uint32) {
+		var r uint32
+		switch I(b[0]) {
+		case 1, 2:
+			r = 10
+		case 4:
+			r = 40
+		default:
+			r = 20
+			if I(b[1]) <= 0 {
+				r = 30
+			}
+		}
+		b[2] = r
+		if I(b[3]) == 7 {
+			b[4] = 3
+		} else {
+			b[4] = 2
+		}
+	}},
+	{"x-vector-arith-splat-compound", "u32", "", "var v = vec4<u32>(buf[0], buf[1], buf[2], buf[3]); v += vec4<u32>(1u); v = v * 2u; v.y = v.x ^ v.w; v = 3u + v; let h = v.zw - v.xy; v[u32(buf[4]) & 3u] = 9u; buf[4] = v.x; buf[5] = v.y + v.z * 2u + v.w * 4u; buf[6] = h.x; buf[7] = h.y;", func(b []uint32) {
+		v := [4]uint32{b[0], b[1], b[2], b[3]}
+		for i := range v {
+			v[i] = (v[i] + 1) * 2
+		}
+		v[1] = v[0] ^ v[3]
+		for i := range v {
+			v[i] += 3
+		}
+		h0, h1 := v[2]-v[0], v[3]-v[1]
+		v[b[4]&3] = 9
+		b[4], b[5], b[6], b[7] = v[0], v[1]+v[2]*2+v[3]*4, h0, h1
+	}},
+	{"x-module-const-array-dynamic-index", "i32", "const T = array<i32, 4>(3, 1, 4, 1);\nconst V = vec4<i32>(2, 7, 1, 8);", "buf[1] = T[u32(buf[0]) & 3u]; buf[2] = V[u32(buf[0]) & 3u]; let t = T; buf[3] = t[u32(buf[4]) & 3u] + T[2]; var s = 0; for (var i = 0u; i < 4u; i++) { s = s * 2 + T[i]; } buf[5] = s;", func(b []uint32) {
+		T := [4]uint32{3, 1, 4, 1}
+		V := [4]uint32{2, 7, 1, 8}
+		b[1] = T[b[0]&3]
+		b[2] = V[b[0]&3]
+		b[3] = T[b[4]&3] + 4
+		b[5] = ((3*2+1)*2+4)*2 + 1
+	}},
+	{"x-let-pointer-to-element", "i32", "struct P { k: i32, v: vec2<i32> }", "var a: array<i32, 4>; let p = &a[u32(buf[0]) & 3u]; *p = buf[1]; a[0] += 1; buf[2] = *p; buf[3] = a[0]; var s: P; let q = &s.v; (*q).y = buf[4]; (*q).x = (*q).y + 1; s.k = s.v.x * 2; buf[5] = s.k; buf[6] = s.v.y;", func(b []uint32) {
+		var a [4]uint32
+		i := b[0] & 3
+		a[i] = b[1]
+		a[0]++
+		b[2], b[3] = a[i], a[0]
+		vy := b[4]
+		vx := vy + 1
+		b[5], b[6] = vx*2, vy
+	}},
+	{"x-bool-conversions-and-increment", "i32", "", "let c = bool(buf[0]); buf[1] = i32(c); buf[2] = i32(u32(buf[3]) > 5u); buf[4] = i32(!c || bool(buf[5])); var i = buf[6]; i++; i++; i--; buf[6] = i; let bv = vec2<bool>(c, buf[5] != 0); let iv = vec2<i32>(bv); buf[7] = iv.x * 2 + iv.y + i32(u32(c));", func(b []uint32) {
+		c := b[0] != 0
+		b[1] = Bool(c)
+		b[2] = Bool(b[3] > 5)
+		b[4] = Bool(!c || b[5] != 0)
+		b[6] = b[6] + 1
+		b[7] = Bool(c)*2 + Bool(b[5] != 0) + Bool(c)
+	}},
 }
 
 // BinAsTemplate turns an integer binary operator into a template: buf[2] = buf[0] OP buf[1].
@@ -618,9 +718,10 @@ var ProbeNames = []string{"struct-array-local", "helper-call", "switch", "compou
 // pairHeavy: templates whose meaning is a deep arithmetic term (bit counting, packing, dot
 // products); composing them adds nothing to the statement-interaction purpose of the pairs
 // and their queries time out when a second template's term is stacked on top. They are
-// decided singly by tv_templates.
+// decided singly by tv_templates. The "x-" templates (round 4: aggregates, vectors, constant
+// tables) are also decided singly only: they were added without time to budget their pairs.
 func pairHeavy(name string) bool {
-	for _, p := range []string{"bits-", "pack-", "dot-", "constant-expressions-bits"} {
+	for _, p := range []string{"bits-", "pack-", "dot-", "constant-expressions-bits", "x-"} {
 		if len(name) >= len(p) && name[:len(p)] == p {
 			return true
 		}
